@@ -16,6 +16,7 @@ package datastore
 //@ guarded repoManager.branchToUUID by branchMutex
 //@ guarded nodeT.children, nodeT.locked, nodeT.note, nodeT.log, nodeT.updated by RWMutex
 //@ guarded repoT.mutCurID, repoT.mutSavedID by mutMu
+//@ guarded repoT.data by RWMutex
 
 
 //@ func repoT.newMutationID
@@ -364,8 +365,13 @@ package datastore
 //@   calls_havoc
 //@   modifies *
 
+// addRepo: r is the repo a push session has just assembled; its instance map is read here without r's
+// lock. ASSUMPTION (unchecked, listed in the evidence): no other request reaches r between its
+// publication in m.repos two lines earlier and this loop - the pushed repo's UUIDs are unknown to clients
+// until the push is acknowledged.
 //@ func repoManager.addRepo
 //@   prop C11
+//@   unguarded r
 //@   lockset
 //@   lockbalance
 //@   inline
@@ -574,3 +580,17 @@ package datastore
 //@   ghost made dvid.UUID = ""
 //@   ghostset after "childUUID, err := manager.newVersion(extnode.oldUUID,": made = childUUID
 //@   assert at "extnode.newUUID = childUUID": childUUID == made
+
+// newData (C11, C06): a data-instance name is registered in its repo only while the repo's write lock
+// is held AND the name is (still) unused in that same critical section - the uniqueness test and the
+// registration are one atomic step, so two concurrent requests for one name cannot both be acknowledged.
+//@ func repoManager.newData
+//@   prop C11 C06
+//@   requires m != nil
+//@   lockset
+//@   interference
+//@   lockbalance
+//@   safety_off
+//@   calls_havoc
+//@   modifies *
+//@   assert at "r.data[name] = dataservice": heldw("r.RWMutex") && !has(r.data, name)
